@@ -11,7 +11,7 @@ COMMON_ASSUMPTIONS = [
     "TLC, the CommunityModules Json/IOUtils modules and the harness's image builder are correct",
 ]
 
-MIX = "small:60,positions:40,gc-heavy:12,big:6,many-queues:6,names:6,wrap:6,batch:12"
+MIX = "small:60,positions:40,gc-heavy:12,big:6,many-queues:6,names:6,wrap:6,batch:12,empties:10"
 MC_QM = dict(name="MC_QueueMap", module="QueueMapMC.tla", cfg="MC_QueueMap.cfg", cfg_thorough="MC_QueueMap_thorough.cfg",
              expect_actions=["QNext"])
 WAL_STEPS = ["CallBegin", "StepEntry", "StepWrite", "StepFlush", "StepFsync", "StepDirSync", "StepCreate", "StepSetLen",
@@ -105,7 +105,7 @@ RECIPES = {
         level="exploration",
         monitors={"C16"},
         mc=[],
-        runs=[dict(cmd="run", gen=MIX + ",drain:40", policy="always_flush"),
+        runs=[dict(cmd="run", gen=MIX + ",drain:40,empties:20", policy="always_flush"),
               dict(cmd="run", gen="small:20,drain:20,gc-heavy:6,persist:10", policy="do_nothing,on_delay_long_flush,on_delay_0_fsync,always_fsync")],
         rule="after every call: names+payload <= memory_used <= names+payload+64*records, used <= allocated, truncate "
              "releases at least the evicted payload, names-only baseline when empty; non-trivial = calls executed",
